@@ -1,7 +1,12 @@
 #!/bin/bash
 # check.sh <property> [quick|thorough]
-# Rebuilds the harness against /repo's current working tree (hooks on: -tags verif),
-# runs the seeded simulation for one property, writes evidence/<id>.json.
+# Rebuilds everything from /repo's current working tree:
+#   1. instruments a scratch copy of /repo (every concurrency construct goes behind the
+#      deterministic scheduler) and builds the harness against it with hooks on (-tags verif);
+#      if a changed /repo uses a construct the instrumenter does not support, the harness is
+#      built against /repo itself instead (real goroutines; noted in the output);
+#   2. for C12 also a -race build of the instrumented harness;
+#   3. runs the seeded simulation for one property and writes evidence/<id>.json.
 # exit 0 held / 1 VIOLATION / 2 harness or build trouble (never a VIOLATION).
 set -u
 ID="$1"; TIER="${2:-${VERIF_TIER:-quick}}"
@@ -11,10 +16,31 @@ export GOFLAGS=-mod=mod GOPROXY=off GOTOOLCHAIN=auto
 unset GOSUMDB
 SCRATCH="$(mktemp -d "${TMPDIR:-/tmp}/verif-$ID-XXXXXX")" || exit 2
 trap 'rm -rf "$SCRATCH"' EXIT
-if ! go build -tags verif -o "$SCRATCH/vsim" ./cmd/vsim >"$SCRATCH/build.log" 2>&1; then
-  echo "BUILD-FAILED (harness against /repo working tree with -tags verif):"; head -40 "$SCRATCH/build.log"
-  exit 2
+BIN="$SCRATCH/vsim"; RACEBIN=""
+MODE=instrumented
+if go build -o "$SCRATCH/instr" ./instr >"$SCRATCH/instr-build.log" 2>&1 \
+   && "$SCRATCH/instr" -src /repo -dst "$SCRATCH/repo" -simrt "$VERIF/simrt" >"$SCRATCH/instr.log" 2>&1; then
+  sed -e "s#=> /repo#=> $SCRATCH/repo#" -e "s#=> ./simrt#=> $VERIF/simrt#" go.mod > "$SCRATCH/harness.mod"
+  cp go.sum "$SCRATCH/harness.sum"
+  if ! go build -modfile="$SCRATCH/harness.mod" -tags verif -o "$BIN" ./cmd/vsim >"$SCRATCH/build.log" 2>&1; then
+    echo "NOTE: instrumented build failed, falling back to the plain build:"; head -5 "$SCRATCH/build.log"; MODE=plain
+  elif [ "$ID" = "C12" ] || [ "$ID" = "C20" ]; then
+    if go build -race -modfile="$SCRATCH/harness.mod" -tags verif -o "$SCRATCH/vsim-race" ./cmd/vsim >"$SCRATCH/build-race.log" 2>&1; then
+      RACEBIN="$SCRATCH/vsim-race"
+    else
+      echo "BUILD-FAILED (race build of the instrumented harness):"; head -20 "$SCRATCH/build-race.log"; exit 2
+    fi
+  fi
+else
+  echo "NOTE: instrumentation not possible, falling back to the plain build (real goroutines):"; tail -3 "$SCRATCH/instr.log" "$SCRATCH/instr-build.log" 2>/dev/null | head -8; MODE=plain
 fi
+if [ "$MODE" = plain ]; then
+  if ! go build -tags verif -o "$BIN" ./cmd/vsim >"$SCRATCH/build.log" 2>&1; then
+    echo "BUILD-FAILED (harness against /repo working tree with -tags verif):"; head -40 "$SCRATCH/build.log"
+    exit 2
+  fi
+fi
+grep -h "^instr: rewrites" "$SCRATCH/instr.log" 2>/dev/null
 export TMPDIR="$SCRATCH"
-"$SCRATCH/vsim" check -prop "$ID" -tier "$TIER" -verif "$VERIF" ${VSIM_ARGS:-}
+"$BIN" check -prop "$ID" -tier "$TIER" -verif "$VERIF" -mode "$MODE" ${RACEBIN:+-racebin "$RACEBIN"} ${VSIM_ARGS:-}
 exit $?
